@@ -374,7 +374,11 @@ func TestC15(t *testing.T) {
 				case "rs":
 					s.ICMP6SendRouterSolicitation()
 				case "ra":
-					pfx := []packet.PrefixInformation{{PrefixLength: 64, OnLink: true, AutonomousAddressConfiguration: true, ValidLifetime: time.Duration(sd.ID) * time.Second, PreferredLifetime: time.Duration(sd.Seq) * time.Second, Prefix: netip.MustParseAddr("2001:db8::").AsSlice()}}
+					// 1..16 prefixes: from the seventh on the message is longer than 256 bytes, with 16 longer than 512
+					var pfx []packet.PrefixInformation
+					for k := []int{1, 2, 6, 7, 9, 16, 1, 3}[sd.A%8]; k > 0; k-- {
+						pfx = append(pfx, packet.PrefixInformation{PrefixLength: 64, OnLink: true, AutonomousAddressConfiguration: true, ValidLifetime: time.Duration(sd.ID) * time.Second, PreferredLifetime: time.Duration(sd.Seq) * time.Second, Prefix: netip.AddrFrom16([16]byte{0x20, 0x01, 0x0d, 0xb8, byte(k), byte(sd.ID), byte(sd.Seq)}).AsSlice()})
+					}
 					s.ICMP6SendRouterAdvertisement(pfx, nil, packet.Addr{MAC: hw(ref.MAC{0x33, 0x33, 0, 0, 0, 1}), IP: netip.MustParseAddr("ff02::1")})
 				}
 			}); p != nil {
